@@ -14,6 +14,8 @@ ops (fields separated by `,`, list elements by `+`):
   asquare,$a+$b      acurly,$v   aget,$a,<int>   aput,$a,<int>,$v   ainsert,$a,<int>,$v   aappend,$a,$v
   aremove,$a,<int>+..   asub,$a,<int>[,<int>]   ahead,$a   atail,$a   areverse,$a   ajoin,$v
   aflatten,$v   asize,$a
+  afe,$a,<id|dup|cnt|c:key>   afl,$a,<t|f|ne|one|nb>   afoldl,$a,$z,<cat|rcat|l|r|cntr>   afoldr,...
+  apair,$a,$b,<fn2>   mfe,$m,<fn2>   deq,$a,$b          key o<tag>_<int.int...> (QName 1, duration 2, hexBinary 3, base64Binary 4)
 
 Answer: one block per step, blocks separated by `|`:
   <model status>~<spec status>~<noClash of the keys used so far: 1|0>~<val>&<val>&...
@@ -24,6 +26,7 @@ values (map:keys, map:for-each, ?* , map:find) sorted.
 -/
 import EPV.Proto
 import EPV.Lemmas.MapArrayKeys
+import EPV.Lemmas.MapArrayHof
 open EPV.Proto EPV.MapArray
 
 def showRat (r : Rat) : String := s!"{r.num}/{r.den}"
@@ -38,6 +41,7 @@ def showKey : Key → String
   | .uri s => "u" ++ ".".intercalate (s.map toString)
   | .bool b => if b then "b1" else "b0"
   | .date y u tz => s!"t{y}_{u}_" ++ (match tz with | some z => toString z | none => "n")
+  | .opq t r => s!"o{t}_" ++ ".".intercalate (r.map toString)
 
 def parseRat (s : String) : Option Rat :=
   match s.splitOn "/" with
@@ -59,6 +63,13 @@ def parseKey (s : String) : Option Key :=
   | some 's' => (parseCps rest).map .str
   | some 'u' => (parseCps rest).map .uri
   | some 'b' => if rest == "1" then some (.bool true) else if rest == "0" then some (.bool false) else none
+  | some 'o' =>
+    match rest.splitOn "_" with
+    | [t, r] => do
+      let t ← nat? t
+      let r ← if r == "" then pure [] else (r.splitOn ".").mapM int?
+      pure (.opq t r)
+    | _ => none
   | some 't' =>
     match rest.splitOn "_" with
     | [y, u, z] => do
@@ -89,8 +100,34 @@ def parsePolicy (s : String) : Option (Option Policy) :=
   | "bad" => some none
   | _ => none
 
+def parseFn1 (s : String) : Option Fn1 :=
+  match s with
+  | "id" => some .ident
+  | "dup" => some .dup
+  | "cnt" => some .count
+  | _ => if s.startsWith "c:" then (parseKey (s.drop 2).toString).map .const else none
+
+def parsePred1 (s : String) : Option Pred1 :=
+  match s with
+  | "t" => some (.always true) | "f" => some (.always false)
+  | "ne" => some .nonEmpty | "one" => some .single | "nb" => some .notBool
+  | _ => none
+
+def parseFn2 (s : String) : Option Fn2 :=
+  match s with
+  | "cat" => some .concat | "rcat" => some .rconcat | "l" => some .left | "r" => some .right
+  | "cntr" => some .countR
+  | _ => none
+
 def parseOp (s : String) : Option Op :=
   match s.splitOn "," with
+  | ["afe", a, f] => do pure (.aForEach (← parseVar a) (← parseFn1 f))
+  | ["afl", a, p] => do pure (.aFilter (← parseVar a) (← parsePred1 p))
+  | ["afoldl", a, z, f] => do pure (.aFoldL (← parseVar a) (← parseVar z) (← parseFn2 f))
+  | ["afoldr", a, z, f] => do pure (.aFoldR (← parseVar a) (← parseVar z) (← parseFn2 f))
+  | ["apair", a, b, f] => do pure (.aForEachPair (← parseVar a) (← parseVar b) (← parseFn2 f))
+  | ["mfe", m, f] => do pure (.mForEachF (← parseVar m) (← parseFn2 f))
+  | ["deq", a, b] => do pure (.deq (← parseVar a) (← parseVar b))
   | ["seq", l] => (parseList parseArg l).map .seq
   | ["mctor", l] => (parseList (fun e => match e.splitOn ":" with
       | [k, v] => do pure ((← parseKey k), (← parseVar v))
@@ -130,7 +167,7 @@ inductive Ordering' where | ordered | freeSeq | freeArr
   deriving DecidableEq
 
 def opOrdering : Op → Ordering'
-  | .mKeys _ | .mForEach _ => .freeSeq
+  | .mKeys _ | .mForEach _ | .mForEachF .. => .freeSeq
   | .lookup _ none => .freeSeq
   | .mFind .. => .freeArr
   | _ => .ordered
@@ -192,7 +229,13 @@ def answer (line : String) : String :=
         let (sst', se) := step sd sst op
         let ords' := ords ++ [opOrdering op]
         let keys' := keys ++ opKeys op
-        let bl' := bl || opBoolLookup op
+        let dqClash := match op with
+          | .deq a b =>
+            let fuel := 2 * mst.store.length + 4
+            let atoms := atomsOf mst.store fuel (mst.var a) ++ atomsOf mst.store fuel (mst.var b)
+            atoms.any fun x => atoms.any fun y => atomClash x y
+          | _ => false
+        let bl' := bl || opBoolLookup op || dqClash
         let ok := noClash keys' && !bl'
         let vals := (List.range ords'.length).map fun j =>
           let o := ords'.getD j .ordered
